@@ -1098,6 +1098,73 @@ def judge_glass(ctx: Ctx, seq: list[str], o: Obs) -> None:
 # cases
 
 
+PEER_CMDS = [b'CLOSE', b'NOOP', b'CHECK', b'FETCH 1 (FLAGS)', b'EXPUNGE',
+             b'STORE 1 +FLAGS (\\Seen)', b'SEARCH ALL', b'COPY 1 Sink',
+             b'UID FETCH 1:* (FLAGS)', b'SELECT BoxA', b'EXAMINE BoxB',
+             b'LOGOUT', b'IDLE']
+
+
+async def peer_deletes(ctx: Ctx, cfg: str, how: str, cmds: list[bytes]) \
+        -> None:
+    """Another connection of the same user deletes (or renames away) the
+    selected mailbox; the statement's unconditional clauses must still hold
+    for the connection that had it selected: CLOSE succeeds and deselects,
+    LOGOUT ends with BYE then OK, NOOP is not refused, and after any command
+    the connection is usable or was ended with BYE."""
+    env = await build_env(cfg)
+    try:
+        await provision(env)
+        a = Conn(1, Sched())
+        a.start(env.imap)
+        await a.greeting()
+        await _must(a, b'LOGIN u1 pw1')
+        await _must(a, b'EXAMINE Tmp' if how.endswith('ro') else b'SELECT Tmp')
+        b = Conn(2, Sched())
+        b.start(env.imap)
+        await b.greeting()
+        await _must(b, b'LOGIN u1 pw1')
+        await _must(b, b'DELETE Tmp' if how.startswith('delete')
+                    else b'RENAME Tmp TmpGone')
+        ctx.count('peer_deletions')
+        selected = True         # as far as this script knows
+        for line in cmds:
+            if a.dead:
+                break
+            was_selected = selected
+            if line.split(b' ')[0] in (b'CLOSE', b'SELECT', b'EXAMINE'):
+                selected = False    # whatever comes next is another matter
+            follow = (b'DONE',) if line == b'IDLE' else ()
+            r = await send(a, line, follow)
+            ctx.count('commands_after_peer_deletion')
+            what = '%s after the selected mailbox was %s by another ' \
+                'connection [%s]' % (line.decode(), how, cfg)
+            if r is None:
+                ctx.report('stuck:selected-mailbox-gone', what + ': no answer')
+                return
+            bye = any(u.cond == b'BYE' for u in r.untagged)
+            c = _cond(r)
+            if line == b'CLOSE' and was_selected and not bye and c != 'OK':
+                ctx.report('close-refused:selected-mailbox-gone',
+                           what + ': answered %r' % (r.tagged.raw[:80]
+                                                     if r.tagged else None))
+            if line in (b'NOOP', b'LOGOUT') and c != 'OK':
+                ctx.report('%s-refused:selected-mailbox-gone'
+                           % line.decode().lower(),
+                           what + ': answered %r' % (r.tagged.raw[:80]
+                                                     if r.tagged else None))
+            if c == 'DIED' and not bye:
+                ctx.report('closed-without-bye:selected-mailbox-gone', what)
+            if line == b'CLOSE' and was_selected and c == 'OK' \
+                    and not a.dead:
+                r2 = await send(a, b'FETCH 1 (FLAGS)')
+                if r2 is not None and _cond(r2) == 'OK':
+                    ctx.report('close-did-not-deselect:selected-mailbox-gone',
+                               what)
+        await _settle(a)
+    finally:
+        env.cleanup()
+
+
 async def explore(ctx: Ctx, prefix: list[str], extend: bool,
                   report_from: int, tag: str) -> None:
     """Clone runs for every prefix of ``prefix`` (and, with ``extend``, for
@@ -1291,6 +1358,15 @@ class C05(Check):
                                  'symbols': ['LOGIN_OK', sel, 'IDLE', x],
                                  'pipe_idle': True})
         out += pipe
+        # the selected mailbox disappears under the connection
+        prng = random.Random(seed * 31 + 55)
+        for cfg in (['dict', 'maildir'] if quick else list(CONFIGS)):
+            for how in ('delete', 'delete-ro', 'rename', 'rename-ro'):
+                for first in PEER_CMDS:
+                    rest = prng.sample(PEER_CMDS, 3)
+                    out.append({'kind': 'peer', 'config': cfg, 'how': how,
+                                'cmds': [c.decode('latin-1')
+                                         for c in [first] + rest]})
         # short sequences first (a mechanism's first witness is then likely
         # a short one); shards are strided, so every worker gets the same mix
         rng.shuffle(out)
@@ -1329,6 +1405,10 @@ class C05(Check):
             if kind in ('exh', 'matrix'):
                 p = list(spec['prefix'])
                 await explore(ctx, p, True, len(p) + 1, 'prefix_steps')
+            elif kind == 'peer':
+                await peer_deletes(ctx, cfg, spec['how'],
+                                   [c.encode('latin-1')
+                                    for c in spec['cmds']])
             elif kind in ('random', 'script-seq'):
                 seq = list(spec['symbols'])
                 await explore(ctx, seq, False, 1, 'sequence_steps_run')
